@@ -573,6 +573,59 @@ fn client_mode_case(cfg: &Cfg) {
     }
 }
 
+/// wait() is entered first and is blocked joining the daemon thread; shutdown is then requested from
+/// another thread (with the peer idle, inside a header, inside a body): wait() must return success.
+fn wait_first_case(cfg: &Cfg) {
+    for sent in [0usize, 5, 15] {
+        let bc = BCfg { num_queues: 1, masks: vec![1], ..BCfg::default() };
+        let mut s: Sess<V> = Sess::new(bc);
+        let peer = s.connect_stream();
+        if !raw_negotiate(&peer) {
+            report::inconclusive("negotiation");
+            return;
+        }
+        let dtid = daemon_tid(&s);
+        let msg = spec::msg(spec::fe::SET_FEATURES, spec::F_VERSION1, &spec::p_u64(1 << 30));
+        if sent > 0 {
+            let _ = sys::send_all(peer.as_raw_fd(), &msg[..sent], &[]);
+        }
+        sys::wait_until(5000, || sys::outq(peer.as_raw_fd()) == 0 && dtid > 0 && sys::parked_in(dtid, &[sys::SYS_RECVMSG]));
+        let handle = s.daemon.shutdown_handle();
+        let wtid = Arc::new(AtomicI32::new(0));
+        let mut wait_result: Option<Result<(), String>> = None;
+        let mut entered = false;
+        std::thread::scope(|sc| {
+            let t2 = wtid.clone();
+            let daemon: &mut VhostUserDaemon<dmn::RB<V>> = &mut s.daemon;
+            let h = sc.spawn(move || {
+                t2.store(sys::gettid(), Ordering::SeqCst);
+                daemon.wait().map_err(|e| format!("{e:?}"))
+            });
+            // wait() is inside: parked joining the daemon thread
+            entered = sys::wait_until(5000, || {
+                let wt = wtid.load(Ordering::SeqCst);
+                wt > 0 && sys::parked_in(wt, &[sys::SYS_FUTEX])
+            });
+            if let Some(hd) = &handle {
+                hd.shutdown();
+            }
+            wait_result = h.join().ok();
+        });
+        report::eval(1);
+        report::count("shutdown.wait_first", 1);
+        report::distinct_str(&format!("waitfirst:{sent}"));
+        let detail = jo! {"request_bytes_sent_before" => sent, "wait_was_blocked_before_the_request" => entered, "wait" => format!("{wait_result:?}")};
+        if !entered {
+            report::inconclusive("wait-first: wait() did not block before the shutdown request");
+        } else if !matches!(wait_result, Some(Ok(()))) {
+            report::violation(&format!("C16:shutdown:wait-entered-first:{}:wait-returns-error", if sent == 0 { "idle" } else if sent < 12 { "inside-header" } else { "inside-body" }), detail, cfg.replay("waitfirst"));
+        } else {
+            report::sample("wait-first", detail);
+        }
+        drop(peer);
+    }
+}
+
 fn s_shutdown_again(h: &Option<vhost_user_backend::ShutdownHandle>) -> Option<vhost_user_backend::ShutdownHandle> {
     h.clone()
 }
@@ -803,6 +856,9 @@ pub fn run(cfg: &Cfg) {
     }
     if (part.is_empty() && cfg.shard == 1 % cfg.nshards.max(1)) || part == "client" {
         client_mode_case(cfg);
+    }
+    if (part.is_empty() && cfg.shard == 2 % cfg.nshards.max(1)) || part == "waitfirst" {
+        wait_first_case(cfg);
     }
     if (part.is_empty() && cfg.shard == 0) || part == "earlywait" {
         early_wait_case(cfg);
